@@ -247,21 +247,31 @@ func runC04(c *core.Ctx) {
 		{"innerA", harness.Layout{SignAssertion: true}, false},
 		{"outerAR", harness.Layout{}, true},
 	}
+	// on this path there is one more ID the message can quote: that of the ArtifactResolve the SP has just sent (never an ID the caller
+	// declared outstanding)
+	const resolveMark = "\x00the-artifact-resolve-id"
+	irtsArt := append(append([]irtVal{}, irts...), irtVal{"artifact-resolve-id", samlgen.S(resolveMark)})
+	subst := func(v irtVal, resolveID string) irtVal {
+		if v.val != nil && *v.val == resolveMark {
+			return irtVal{v.name, samlgen.S(resolveID)}
+		}
+		return v
+	}
 	for _, art := range arts {
 		for _, set := range sets {
-			for _, r := range irts {
-				for _, c1 := range irts {
+			for _, r := range irtsArt {
+				for _, c1 := range irtsArt {
 					for _, al := range alays {
 						for _, idpInit := range []bool{false, true} {
 							key := fmt.Sprintf("artifact/art=%s/set=%s/resp=%s/c1=%s/lay=%s/idpinit=%v", art.name, set.name, r.name, c1.name, al.name, idpInit)
 							art, set, r, c1, al, idpInit := art, set, r, c1, al, idpInit
 							c.Case(key, func(t *core.T) {
 								sp := getSP(idpInit, "nil")
-								inner := buildDoc(r, c1, nil, al.inner)
 								var sent []byte
 								genID := ""
 								a, err := parseArtifact(sp, set.ids, func(resolveID string, body []byte) (*http.Response, error) {
 									genID = resolveID
+									inner := buildDoc(subst(r, resolveID), subst(c1, resolveID), nil, al.inner)
 									ar := harness.ArtifactResponseEl("id-artresp-1", art.f(resolveID), samlgen.TS(samlgen.T0), samlgen.S(samlgen.IDPEntity), samlgen.StatusOK, samlgen.Parse(inner))
 									env := harness.SoapEnvelope(ar)
 									if al.signAR {
@@ -396,6 +406,7 @@ func runC04(c *core.Ctx) {
 	}
 
 	c04ManyPending(c)
+	c04TrackedLifetime(c)
 	c.Group("middleware-acs")
 	for _, idpInit := range []bool{false, true} {
 		for nTracked := 0; nTracked <= 2; nTracked++ {
@@ -535,6 +546,66 @@ func runC04(c *core.Ctx) {
 						}
 					}
 				}
+			}
+		}
+	}
+}
+
+// c04TrackedLifetime: through the middleware a request is outstanding for as long as its tracking token lives, not longer. One flow is
+// started, the clock is moved to each of four positions around the tracking lifetime, the IdP answers at that moment (a fresh, valid
+// Response) and the browser delivers it with the authentic cookie.
+func c04TrackedLifetime(c *core.Ctx) {
+	c.Group("middleware-request-outstanding-for-the-tracking-lifetime-only")
+	for _, cf := range []c17Cfg{{binding: "redirect", scheme: "https", key: "sp2048", rsf: "nil"}, {binding: "post", scheme: "http", key: "spec256", rsf: "nil"}} {
+		for notch := 0; notch < 4; notch++ {
+			for _, idpInit := range []bool{false, true} {
+				cf, notch, idpInit := cf, notch, idpInit
+				key := fmt.Sprintf("tracked-lifetime/%s/answered-and-delivered-at-notch=%d/idpinit=%v", cf, notch, idpInit)
+				c.Case(key, func(t *core.T) {
+					t.NonTrivial()
+					w := newC17World(cf)
+					w.m.ServiceProvider.AllowIDPInitiated = idpInit
+					st := &c17State{jar: map[string]c17Cookie{}, ever: map[string]string{}}
+					st.flows = append(st.flows, c17Flow{url: w.urls[0], user: w.users[0]})
+					if bad := c17Start(w, st, 0); len(bad) > 0 {
+						t.Fail("C04/middleware/start-failed", "%v", bad)
+						return
+					}
+					f := &st.flows[0]
+					cookies := map[string]string{"saml_" + f.index: f.cookieVal}
+					st.notch = notch
+					c17Answer(w, st, 0)
+					form := w.responseForm(f.response)
+					form.Set("RelayState", f.index)
+					rep := w.acs(notch, cookies, form, "c04life")
+					t.Impl(w.impl)
+					if rep.panic != "" {
+						t.Fail("C04/middleware/panic/"+core.PanicSite(rep.panic), "%s", rep.panic)
+						return
+					}
+					session := false
+					for _, ck := range rep.cookies {
+						if ck.Name == "token" && ck.Value != "" {
+							session = true
+						}
+					}
+					v := core.MustAccept
+					if !w.tokenLive(f, notch) {
+						v = core.MustReject
+						if idpInit {
+							v = core.DontCare // the deployment accepts unsolicited responses anyway
+						}
+					}
+					t.Modelled(v)
+					t.Compared()
+					t.Outcome(fmt.Sprintf("live=%v session=%v", w.tokenLive(f, notch), session))
+					if v == core.MustReject && session {
+						t.Fail("C04/middleware/session-for-a-request-no-longer-outstanding", "%s: the tracking token of the request expired %s before the response was delivered, yet a session was established", key, w.notchT[notch].Sub(w.notchT[0].Add(w.delay)))
+					}
+					if v == core.MustAccept && !session {
+						t.Fail("C04/middleware/valid-answer-refused", "%s: answer to a live tracked request refused (status %d)", key, rep.code)
+					}
+				})
 			}
 		}
 	}
